@@ -231,6 +231,15 @@ def c02d(ck, prog):
     ck.ob(R, "read-count", ok, f.loc(rd[0].sp),
           "" if ok else "the byte count returned by stream.read(&mut buf) is only tested against 0 and then dropped: the parser cannot tell received zero bytes from unreceived ones (a body starting with \\0 in the head's segment makes the server wait for bytes that already arrived)",
           how="Ok(n) flows into %s" % sorted({x[1] for x in real})[:4])
+    # ... and bounds what the parser is given: the bytes handed to the head parser are a prefix of the buffer (`buf[..k]`,
+    # `split_at(k).0`, `take(k)`), not the whole buffer -- what lies behind the received bytes is padding or an earlier request
+    rn = [c for c in f.calls() if c.name == "new" and re.search(r"byte_reader::Reader", c.callee or "")]
+    if rn:
+        d = decision.describe_deep(f, rn[0].args[0], 12)
+        bounded = re.search(r"(index|get_unchecked|get)\((deref\(|deref_mut\()*[^,]*__buf__[^,]*,RangeTo\{", d) is not None \
+            or re.search(r"split_at(_mut)?\([^,]*__buf__[^,]*,[^)]*\)\.0", d) is not None or re.search(r"take\(|from_raw_parts\(", d) is not None or "__buf__" not in d
+        ck.ob(R, "parser-input:bounded-by-received", bounded, f.loc(rn[0].sp), "" if bounded else "the head parser is given `%s`, the whole buffer: bytes behind the received ones (zero padding, or what an earlier request left there) are parsed as part of this request" % d[:90],
+              how="Reader::new over a prefix of the buffer")
 
 
 def places_in(r):
